@@ -552,6 +552,8 @@ def _main(args, prop, seed, scratch, t0):
     for e in known.fixed:
         fails = replay_fails.get(e["id"]) or []
         for b, d in fails:
+            if known.match(b):
+                continue       # the replay input also lies in a listed finding's region: that is the finding
             failures.setdefault("regression:%s:%s" % (e["id"], b),
                                 {"explore": "replay:" + e["id"], "case": None, "detail": d,
                                  "replay_path": e["replay"]})
